@@ -127,6 +127,75 @@ theorem forms_agree (v w : ProfileVal) (c d : Call) (hp : c.p = d.p) (ho : c.op 
     (hb : c.b = d.b) : runOn v c = runOn w d := by
   rw [runOn_pure, runOn_pure, hp, ho, ha, hb]
 
+/-! ### the lazy cell itself: initialised at most once, never changes afterwards, read only when initialised -/
+
+theorem step_cell_init (st st' : St) (e : Event) (p : Profile) (v : ProfileVal) (h : Step st e st')
+    (hc : st.cells p = .init v) : st'.cells p = .init v := by
+  cases h with
+  | beginInit tid q hq =>
+    simp only [setCell]
+    split
+    · rename_i heq; subst heq; rw [hc] at hq; obtain ⟨_, hq⟩ := hq; exact hq.elim
+    · exact hc
+  | endInit tid q w hq =>
+    simp only [setCell]
+    split
+    · rename_i heq; subst heq; rw [hc] at hq; obtain ⟨_, hq⟩ := hq; exact hq.elim
+    · exact hc
+  | retStatic c w hs hq => exact hc
+  | retInstance c w hs => exact hc
+
+/-- once a static profile is initialised it keeps its value in every later state, whatever the threads do -/
+theorem cell_stays_init (st st' : St) (es : List Event) (h : Exec st es st') (p : Profile) (v : ProfileVal)
+    (hc : st.cells p = .init v) : st'.cells p = .init v := by
+  induction h with
+  | nil => exact hc
+  | cons hstep _ ih => exact ih (step_cell_init _ _ _ p v hstep hc)
+
+/-- number of completed initialisations of `p` in a trace -/
+def initCount (p : Profile) : List Event → Nat
+  | [] => 0
+  | .endInit _ q _ :: es => (if q = p then 1 else 0) + initCount p es
+  | _ :: es => initCount p es
+
+/-- the initialiser of a static profile completes at most once in any execution from the initial state (in any execution
+at all: at most once after the cell left `uninit`) — the `Once` protocol, as far as the model carries it -/
+theorem init_at_most_once (st st' : St) (es : List Event) (h : Exec st es st') (p : Profile) :
+    initCount p es ≤ 1 ∧ (∀ v, st.cells p = .init v → initCount p es = 0) := by
+  induction h with
+  | nil => exact ⟨Nat.zero_le _, fun _ _ => rfl⟩
+  | @cons st st1 st2 e es hstep hexec ih =>
+    cases hstep with
+    | beginInit tid q hq =>
+      refine ⟨ih.1, fun v hv => ih.2 v ?_⟩
+      simp only [setCell]
+      split
+      · rename_i heq; subst heq; rw [hv] at hq; obtain ⟨_, hq⟩ := hq; exact hq.elim
+      · exact hv
+    | endInit tid q w hq =>
+      by_cases hqp : q = p
+      · subst hqp
+        have h0 : initCount q es = 0 := ih.2 w (by simp [setCell])
+        refine ⟨by simp [initCount, h0], fun v hv => ?_⟩
+        rw [hv] at hq; obtain ⟨_, hq⟩ := hq; exact hq.elim
+      · refine ⟨by simpa [initCount, hqp] using ih.1, fun v hv => ?_⟩
+        have : initCount p es = 0 := ih.2 v (by simp only [setCell]; rw [if_neg (Ne.symm hqp)]; exact hv)
+        simpa [initCount, hqp] using this
+    | retStatic c w hs hq => exact ⟨ih.1, fun v hv => ih.2 v hv⟩
+    | retInstance c w hs => exact ⟨ih.1, fun v hv => ih.2 v hv⟩
+
+/-- a static call can only complete in a state whose cell is initialised (it never observes a half-built profile) -/
+theorem static_ret_needs_init (st st' : St) (c : Call) (out : Out) (h : Step st (.ret c out) st') (hs : c.how = .static) :
+    ∃ v, st.cells c.p = .init v := by
+  cases h with
+  | retStatic c' v hs' hq =>
+    obtain ⟨_, hq⟩ := hq
+    cases hc : st.cells c.p with
+    | init w => exact ⟨w, rfl⟩
+    | uninit => rw [hc] at hq; exact hq.elim
+    | running t => rw [hc] at hq; exact hq.elim
+  | retInstance c' v hs' => exact absurd hs hs'
+
 /-- non-vacuity: a schedule in which thread 2's static call completes after thread 1 initialised the cell -/
 example : ∃ st', Exec St.init
     [.beginInit 1 .nickname, .endInit 1 .nickname ⟨()⟩,
